@@ -405,6 +405,16 @@ func evalWorld(r *ev.Run, w world) {
 		}
 		r.Violation(key, fmt.Sprintf("targets differ from the reference:\n got  %v\n want %v", got, want), w)
 	}
+	// the sequence describes the result AS IT WAS when Targets was called: assigning to the variable's fields afterwards (the
+	// variable is reused for the next lookup, cleared, ...) does not change what the sequence yields
+	{
+		res4 := build(w)
+		seq4 := res4.Targets(w.Network)
+		res4.HTTPS, res4.Address, res4.Additional, res4.Port = nil, nil, nil, 1
+		if late, _ := collectSeq(seq4, w.Stop); !reflect.DeepEqual(late, got) {
+			r.Violation("impure:sequence-follows-later-assignments", fmt.Sprintf("Targets was called, then the variable's fields were reassigned, then the sequence was ranged over: %v (the result at the time of the call gives %v)", late, got), w)
+		}
+	}
 	// ... and when every record takes the default protocol (the list handed out is then made for the occasion, not the record's
 	// own), ranging again over the SAME sequence value after the consumer edited what it got gives the reference targets too
 	allDefault := true
